@@ -185,7 +185,8 @@ def check_roles(ctx, db, rid, only_functions=None, only_objects=None, floor=1):
         if ent is None:
             # an operation moved into a function the table does not know (and whose callers do not decide it): judge it by the strictest
             # role the table gives this operation on this object anywhere
-            rs = [v[0] for k_, v in ROLES.items() if k_[1] == key[1] and k_[2] == key[2] and key[2]]
+            cx = lambda o_: 'compare_exchange' if o_.startswith('compare_exchange') else o_       # weak and strong forms play the same role
+            rs = [v[0] for k_, v in ROLES.items() if cx(k_[1]) == cx(key[1]) and k_[2] == key[2] and key[2]]
             if rs:
                 strict = max(rs, key=lambda r_: {'any': 0, 'publish': 1, 'consume': 1, 'pubcons': 2}[r_])
                 if len({r_ for r_ in rs if r_ != 'any'}) <= 1:
